@@ -236,3 +236,63 @@ def c02_residue(tier="quick", seed=0):
             by[c[0]][1] = (src, why)
     return [ob(f"C02.bounded.residue.{k}", b is None, "B", f"{n} skeletons x 1500 iterations under memory_limit=6000" if b is None else b[1],
                witness=(b[0] if b else None), confirmed=True if b else None, domain=n) for k, (n, b) in sorted(by.items())]
+
+
+# =======================================================================================================================
+# K1: what a returning frame leaves behind, for every operand stack, handler stack and call depth
+# =======================================================================================================================
+from pyvc.api import *      # noqa: E402
+
+
+def inv_discard(self, depth):
+    """the handler stack is a prefix of what it was, and every record above it belonged to a frame that has been left
+    (stated for the arbitrary index `i` of the contract: a universally quantified fact)"""
+    hs0 = ghost_get("hs0", None)
+    i = ghost_get("i", None)
+    n = len(self.exception_handlers)
+    if not heap_unchanged(loop_entry(), (self.exception_handlers, "list.items")):
+        return False
+    if not (n <= len(hs0) and same_elements(self.exception_handlers, hs0[:n])):
+        return False
+    return not (n <= i and i < len(hs0)) or hs0[i][0] >= depth
+
+
+inv_discard = writes("list.items")(inv_discard)
+
+
+def c_discard_frame_state(vm: Obj("VM"), frame: Obj("CallFrame"), stack: ValList, hs: ValList, frames: ValList, bp: IntRange(0, 2 ** 20), i: IntRange(0, 2 ** 20)):
+    """_discard_frame_state(frame), called when `frame` has just been popped: the operand stack is cut back to the frame's
+    base -- nothing the frame pushed (for-in / for-of iterators, switch discriminants, pending operands) reaches the
+    caller -- and the handler records are dropped from the top exactly while they belong to frames at or above the new
+    call depth (for every index i: dropped records are such records, and the record left on top is not); the call stack
+    itself and every other object are untouched"""
+    assume(not same_ref(stack, hs) and not same_ref(stack, frames) and not same_ref(hs, frames))
+    elems_are(hs, "tuple-of-3-int")
+    frame.bp = bp
+    vm.stack = stack
+    vm.exception_handlers = hs
+    vm.call_stack = frames
+    stack0, hs0, frames0 = stack[:], hs[:], frames[:]
+    elems_are(hs0, "tuple-of-3-int")
+    ghost_set("hs0", hs0)
+    ghost_set("i", i)
+    depth = len(frames)
+    snap = heap_snapshot()
+    r = outcome(REAL, vm, frame)
+    check("never-raises", r[0] == "ret")
+    check("operands-cut-to-the-frame-base", same_elements(vm.stack, stack0[:bp]))
+    k = len(vm.exception_handlers)
+    check("handlers-are-a-prefix", k <= len(hs0) and same_elements(vm.exception_handlers, hs0[:k]))
+    check("dropped-records-belong-to-left-frames", not (k <= i and i < len(hs0)) or hs0[i][0] >= depth)
+    check("record-left-on-top-belongs-to-a-live-frame", k == 0 or (k <= len(hs0) and hs0[k - 1][0] < depth))
+    check("call-stack-untouched", same_elements(vm.call_stack, frames0))
+    check("frame.nothing-else", heap_unchanged(snap, (stack, "list.items"), (hs, "list.items")))
+
+
+def _native_discard():
+    from microjs.vm import VM
+    return VM._discard_frame_state
+
+
+register(c_discard_frame_state, id="C02.VM._discard_frame_state", prop="C02", target=method("microjs.vm", "VM._discard_frame_state"), native=_native_discard,
+         invariants={("microjs.vm:VM._discard_frame_state", 0): inv_discard}, prim_args=False)
